@@ -270,6 +270,16 @@ class World(object):
         kw = dict((n, v) for n, v in kwargs)
         if parent is not None:
             kw['parent'] = self.nodes[parent]
+        if i % 2 == 1 and fname != 'Style':   # (style.StyleElement inspects its keyword arguments itself)
+            # the other calling convention: attributes (and the 'parent' pseudo-attribute, first) in the `attributes=` dict;
+            # same processing order as keyword arguments, so the model's request line is the same
+            attrs = {}
+            if parent is not None:
+                attrs['parent'] = kw.pop('parent')
+            for n, v in kwargs:
+                if n not in ('text', 'cdata'):
+                    attrs[n] = kw.pop(n)
+            kw['attributes'] = attrs
         # catch the object even when __init__ raises: Element.__init__ is entered with the new object as self
         made = []
         orig = element.Element.__init__
